@@ -80,6 +80,10 @@ class DAGConcurrentManagerLock:
             condition.notify_all()
 
 
+# The result of a node's execution request that found the node already executed (or being executed) by another request
+_EXECUTED_ELSEWHERE = object()
+
+
 def cache_key(prefix: str, _: t.Any, *args: t.Any, **kwargs: t.Any) -> t.Type[tuple]:
     """Custom func key generation excluding 'self'."""
     return hashkey(*args, prefix, **kwargs)
@@ -321,7 +325,7 @@ class DAGRunConcurrentManager(DAGRunManagerLike):
 
             await self._lock_manager.wait_for_event(node_id)
 
-            return self._node_storage.get_node_result(node_id)
+            return _EXECUTED_ELSEWHERE
 
         self._node_storage.set_node_as_processed(node_id)
         await self.ctx.emit_on_node_start(node_id=node_id)
@@ -675,11 +679,17 @@ class DAGRunConcurrentManager(DAGRunManagerLike):
                 # will be executed again and the function will unlock the descendants in the other branch.
                 to_unlock_descendants = False
 
+            if result is _EXECUTED_ELSEWHERE:
+                # The request that executed the node has stored and saved its result
+                return
+
             logger.debug('Save the result "%s" for the node %s', result, node_id)
             self._node_storage.set_node_result(node_id, result)
 
-            # TODO: Needs to reorganize saving policy for artifact storage
-            await self.ctx.save_node_result(node_id, result)
+            # Only final values are artifacts: neither the marker of the next iteration
+            # nor an error kept as the result inside a OneOf subgraph
+            if not isinstance(result, (Recurrent, BaseException)):
+                await self.ctx.save_node_result(node_id, result)
 
         finally:
             if not to_unlock_descendants:
